@@ -247,8 +247,13 @@ def gen_cell(cell, rng, rep):
     inject[0]['via'] = via
     inject[0]['align'] = want_align
     core = {'config': cfg, 'devices': devices, 'regs': state, 'words': words, 'force': None, 'no_poke': []}
-    return {'scenario': 'entry', 'cell': {k: v for k, v in cell.items()}, 'cores': [core], 'events': events, 'inject': inject,
+    case = {'scenario': 'entry', 'cell': {k: v for k, v in cell.items()}, 'cores': [core], 'events': events, 'inject': inject,
             'nest': nest, 'nest_seed': rng.getrandbits(32), 'max_ticks': len(words) + 2 * len(nest) + 2, 'stop_at_done': False}
+    if rng.random() < 0.25:
+        # a predecessor instance with other extensions asked about every mode number before this one was built (whether Monitor / Hyp exist - and with
+        # them which SPSR and LR an entry writes - is a property of the configuration, not of the process)
+        case['predecessor'] = G.predecessor_for(rng, cfg)
+    return case
 
 
 def gen(item, rng, tier):
